@@ -122,6 +122,7 @@ theorem wf_sumSimplify (hm : LeafMono L) {e : Expr} {r : List Var} (he : Wf L R 
   unfold sumSimplify
   split
   · rename_i pop children
+    have he0 := he
     simp only [Wf] at he
     have hsub : ∀ (f : Name × Var → Bool), ∀ v ∈ sortVars (((childDict children).filter f).map (·.2)), v ∈ children := by
       intro f v hv
@@ -129,6 +130,8 @@ theorem wf_sumSimplify (hm : LeafMono L) {e : Expr} {r : List Var} (he : Wf L R 
       rcases hv with ⟨p, ⟨hp, _⟩, rfl⟩
       exact childDict_val_mem children p hp
     simp only []
+    split
+    · exact ⟨he0, hr⟩
     split
     · simp [Wf]
     · split
